@@ -8,6 +8,8 @@ pub mod c08;
 pub mod c14;
 pub mod c15;
 pub mod c16;
+pub mod c17;
+pub mod c18;
 
 use crate::runner::DynProp;
 
@@ -21,6 +23,8 @@ pub fn all() -> Vec<Box<dyn DynProp>> {
         Box::new(c14::C14),
         Box::new(c15::C15),
         Box::new(c16::C16::default()),
+        Box::new(c17::C17),
+        Box::new(c18::C18),
     ]
 }
 
